@@ -125,7 +125,12 @@ func newC10Disp(st string) (*c10Disp, error) {
 	membership := map[tss.UniversalID]tss.PartyID{11: 11, 12: 12, 13: 13}
 	var mu sync.Mutex
 	party := threshold.LoudScheme(11, scripted.Logger{},
-		func(uint16) tss.KeyGenerator { mu.Lock(); defer mu.Unlock(); d.be = scripted.NewBackend(11); return d.be },
+		func(uint16) tss.KeyGenerator {
+			mu.Lock()
+			defer mu.Unlock()
+			d.be = scripted.NewBackend(11)
+			return d.be
+		},
 		func(uint16) tss.Signer { mu.Lock(); defer mu.Unlock(); d.be = scripted.NewBackend(11); return d.be },
 		2, func(uint8, []byte, []byte, ...uint16) {}, func() map[tss.UniversalID]tss.PartyID { return membership })
 	d.sch = party.(*threshold.Scheme)
@@ -161,6 +166,9 @@ func newC10Disp(st string) (*c10Disp, error) {
 			if be != nil && be.WaitStarted(time.Millisecond) {
 				break
 			}
+			if be == nil {
+				time.Sleep(200 * time.Microsecond)
+			}
 		}
 		if d.be == nil {
 			return nil, fmt.Errorf("back end never started")
@@ -179,6 +187,9 @@ func newC10Disp(st string) (*c10Disp, error) {
 			mu.Unlock()
 			if be != nil && be.WaitStarted(time.Millisecond) {
 				break
+			}
+			if be == nil {
+				time.Sleep(200 * time.Microsecond)
 			}
 		}
 		if d.be == nil {
@@ -239,6 +250,14 @@ func c10Dispatcher(cell c10Cell, rng *rand.Rand, flips int) []obj {
 			in.data = m
 			inputs = append(inputs, in)
 		}
+		if cell.Kind == "mpc-ack" && cell.Cls == "valid" {
+			// acknowledgements about every kind of sender: the receiver itself, the other participants, a node outside the session
+			for _, about := range []byte{11, 13, 99, 0} {
+				in := base
+				in.data = append([]byte{1, 0, about}, sha(scripted.EncodePayload('B', 1, []byte("never sent")))...)
+				inputs = append(inputs, in)
+			}
+		}
 	}
 	var res []obj
 	for k, in := range inputs {
@@ -252,7 +271,7 @@ func c10Dispatcher(cell c10Cell, rng *rand.Rand, flips int) []obj {
 		if topic == nil {
 			topic = d.topic
 		}
-		for _, src := range []uint16{12, 99} {
+		for _, src := range []uint16{12, 13, 99} {
 			p, hung := guarded(func() {
 				d.sch.HandleMessage(&tss.IncMessage{MsgType: in.msgType, Topic: topic, Data: in.data, Source: src})
 			})
@@ -393,14 +412,24 @@ func c10Sync(cell c10Cell, rng *rand.Rand, flips int) []obj {
 			Broadcast: func([]byte) { mu.Lock(); sent++; mu.Unlock() }, Send: func([]byte, uint16) { mu.Lock(); sent++; mu.Unlock() }}
 		ctx, cancel := context.WithCancel(context.Background())
 		switch cell.St {
-		case "probing":
-			go mem.Synchronize(ctx, func([]uint16) {}, topic, 3, time.Hour)
-			time.Sleep(3 * time.Millisecond)
-		case "done":
-			go mem.Synchronize(ctx, func([]uint16) {}, topic, 3, time.Hour)
-			time.Sleep(3 * time.Millisecond)
-			cancel()
-			time.Sleep(time.Millisecond)
+		case "probing", "done":
+			fin := make(chan struct{})
+			go func() { mem.Synchronize(ctx, func([]uint16) {}, topic, 3, time.Hour); close(fin) }()
+			// the registration cannot be observed directly: a query of peer 4 is answered once it has happened
+			for i := 0; i < 20000; i++ {
+				mem.HandleMessage(4, discovery.VerifEncode(2, tagOf(4), []uint16{4}))
+				mu.Lock()
+				ok := sent > 0
+				mu.Unlock()
+				if ok {
+					break
+				}
+				time.Sleep(100 * time.Microsecond)
+			}
+			if cell.St == "done" {
+				cancel()
+				<-fin
+			}
 		}
 		p, hung := guarded(func() {
 			mem.HandleMessage(2, m)
